@@ -472,29 +472,23 @@ mod verif_c06e {
         assert!(!t.0.escaped);
         kani::cover!(expected.is_some());
     }
-    /// Quick variants of the three arms of Ellipse::draw_styled on 0..=2 x 0..=2 ellipses (EllipseContains::contains
+    /// Quick variants of the fill-only and stroke-only arms of Ellipse::draw_styled (the stroke-and-fill arm did not
+    /// finish in 15 min even at this size and stays in the thorough tier) on 0..=2 x 0..=2 ellipses (EllipseContains::contains
     /// used through its contract): enough to decide which scanline generator over which area each arm uses
     /// (an inside stroke of width 1 empties the fill area of a 2x2 ellipse).
-    //@harness prop=C06,C02 kind=bounded tier=quick class=P bound="ellipse fill only; size <= 2x2, stroke width 0..=1, three alignments, position (0,0)" timeout=900 kani="--no-assertion-reach-checks" unwindset="try_fold=5;draw_styled=5;ellipse::points::Scanlines as core::iter::Iterator>::next=5" fns=src/primitives/ellipse/styled.rs::Ellipse::draw_styled
+    //@harness prop=C06 kind=bounded tier=quick class=P bound="ellipse fill only; size <= 2x2, stroke width 0..=1, three alignments, position (0,0)" timeout=900 kani="--no-assertion-reach-checks" unwindset="try_fold=5;draw_styled=5;ellipse::points::Scanlines as core::iter::Iterator>::next=5" fns=src/primitives/ellipse/styled.rs::Ellipse::draw_styled
     #[kani::proof]
     #[kani::unwind(6)]
     #[kani::stub(crate::primitives::ellipse::EllipseContains::contains, crate::primitives::ellipse::verif_ell::contains_by_contract)]
     fn c06_ellipse_draw_arm_fill_only() {
         draw_probe_sized(true, false, 2);
     }
-    //@harness prop=C06,C02 kind=bounded tier=quick class=P bound="ellipse stroke only; size <= 2x2, stroke width 1, three alignments, position (0,0)" timeout=900 kani="--no-assertion-reach-checks" unwindset="try_fold=5;draw_styled=5;ellipse::points::Scanlines as core::iter::Iterator>::next=5"
+    //@harness prop=C06 kind=bounded tier=quick class=P bound="ellipse stroke only; size <= 2x2, stroke width 1, three alignments, position (0,0)" timeout=900 kani="--no-assertion-reach-checks" unwindset="try_fold=5;draw_styled=5;ellipse::points::Scanlines as core::iter::Iterator>::next=5"
     #[kani::proof]
     #[kani::unwind(6)]
     #[kani::stub(crate::primitives::ellipse::EllipseContains::contains, crate::primitives::ellipse::verif_ell::contains_by_contract)]
     fn c06_ellipse_draw_arm_stroke_only() {
         draw_probe_sized(false, true, 2);
-    }
-    //@harness prop=C06,C02 kind=bounded tier=quick class=P bound="ellipse stroke and fill; size <= 2x2, stroke width 1, three alignments, position (0,0)" timeout=900 kani="--no-assertion-reach-checks" unwindset="try_fold=5;draw_styled=5;ellipse::points::Scanlines as core::iter::Iterator>::next=5"
-    #[kani::proof]
-    #[kani::unwind(6)]
-    #[kani::stub(crate::primitives::ellipse::EllipseContains::contains, crate::primitives::ellipse::verif_ell::contains_by_contract)]
-    fn c06_ellipse_draw_arm_stroke_and_fill() {
-        draw_probe_sized(true, true, 2);
     }
     /// Ellipse::draw_styled, fill-only arm (which scanline generator over which area)
     //@harness prop=C06,C02 kind=bounded tier=thorough class=P bound="ellipse fill only; size <= 3x3, stroke width 0..=1, position (0,0)" timeout=3000 unwindset="try_fold=6;draw_styled=6;ellipse::points::Scanlines as core::iter::Iterator>::next=6" fns=src/primitives/ellipse/styled.rs::Ellipse::draw_styled
